@@ -1,5 +1,6 @@
 import Proofs.ColSafe
 import Proofs.MsgSafe
+import Proofs.BlockSafe
 /-
 C06 — Hostile or corrupted input yields an error, never a crash or bad column.
 
@@ -28,6 +29,12 @@ data, values behind every null mark, dictionary keys in range). -/
 theorem C06_consistent (cfg : Cfg) (hm : cfg.monotone = true) (t : Ty) (rows : Nat) (bs : Bytes) (c : Col) (r : Bytes)
     (h : decCol cfg t rows bs = .ok (c, r)) : c.rows = rows ∧ accessOK c = true :=
   decCol_consistent cfg hm t rows bs c r h
+
+/-- **whole blocks**: any byte string decoded as a block against any schema within the caps, at any
+revision — header, column headers, state prefixes and bodies — ends in a result or an error -/
+theorem C06_block_total (cfg : Cfg) (v : Nat) (sc : Block.Schema) (hs : Msg.StrAllocOK cfg.strLim cfg.cap)
+    (hsc : Block.SchemaOK cfg sc) (bs : Bytes) : (Block.dec cfg v sc bs).graceful = true :=
+  Block.dec_graceful cfg v sc hs hsc bs
 
 /-- protocol messages: any byte string, any revision, any descriptor -/
 theorem C06_message_total (lim cap : Option Nat) (h : Msg.StrAllocOK lim cap) (d : List Msg.Field) (v : Nat)
